@@ -533,3 +533,81 @@ def membership_case(rng) -> Dict[str, Any]:
     else:
         comp = rlist(rng, vs, rng.randint(1, 3), 2, style)
     return {"kind": kind, "family": kind, "style": style, "contract": c, "comp": comp}
+
+
+# --------------------------------------------------------------------------------------
+# composition / quotient cases (C01, C02, C15)
+
+
+def dup_noise(rng, c: Dict[str, Any]) -> Dict[str, Any]:
+    """Plant redundant / duplicated / scaled terms."""
+    for key in ("a", "g"):
+        lst = c[key]
+        if lst and rng.random() < 0.25:
+            t = rng.choice(lst)
+            r = rng.random()
+            if r < 0.4:
+                lst.append({"c": dict(t["c"]), "k": t["k"]})
+            elif r < 0.7:
+                lst.append(scale(t, float(rng.choice([2, 0.5, 3]))))
+            else:
+                lst.append({"c": dict(t["c"]), "k": t["k"] + float(rng.choice([1, 2]))})
+    return c
+
+
+def compose_case(rng, kind: Optional[str] = None) -> Dict[str, Any]:
+    kind, i1, o1, i2, o2 = wiring(rng, kind)
+    style = pick_style(rng)
+    c1 = rcontract(rng, i1, o1, style)
+    c2 = rcontract(rng, i2, o2, style)
+    if kind == "feedback" and rng.random() < 0.8:
+        # keep the fed-back inputs out of the assumptions (otherwise the composition must be rejected)
+        c1["a"] = [t for t in c1["a"] if "f2" not in t["c"]]
+        c2["a"] = [t for t in c2["a"] if "f1" not in t["c"]]
+    dup_noise(rng, c1)
+    dup_noise(rng, c2)
+    outs = o1 + o2
+    keep: List[str] = []
+    r = rng.random()
+    if r < 0.35:
+        keep = rng.sample(outs, rng.randint(1, min(2, len(outs))))
+    elif r < 0.4:
+        keep = [rng.choice(i1 + i2)]  # usually a non-output: must be rejected
+    return {"wiring": kind, "style": style, "c1": c1, "c2": c2, "keep": keep, "simplify": rng.random() < 0.6,
+            "order": rorder(rng)}
+
+
+def quotient_case(rng) -> Dict[str, Any]:
+    """(dividend, divisor): dividend built as divisor || hidden partner, or unrelated."""
+    style = pick_style(rng)
+    fam = rng.choice(["hidden_partner", "hidden_partner", "unrelated", "top_assumes_more", "top_assumes_less"])
+    # divisor C1: i1 -> m1 ; partner P: m1 -> o1 ; top: i1 -> o1
+    shape = rng.choice(["first", "second", "parallel"])
+    if shape == "first":        # divisor is the first stage, quotient must be the second
+        d_in, d_out = ["i1"], ["m1"]
+        p_in, p_out = ["m1"], ["o1"]
+        t_in, t_out = ["i1"], ["o1"]
+    elif shape == "second":     # divisor is the second stage
+        d_in, d_out = ["m1"], ["o1"]
+        p_in, p_out = ["i1"], ["m1"]
+        t_in, t_out = ["i1"], ["o1"]
+    else:                       # divisor handles one of two independent channels
+        d_in, d_out = ["i1"], ["o1"]
+        p_in, p_out = ["i2"], ["o2"]
+        t_in, t_out = ["i1", "i2"], ["o1", "o2"]
+    divisor = rcontract(rng, d_in, d_out, style, bounded=True, gain=rng.random() < 0.7)
+    partner = rcontract(rng, p_in, p_out, style, bounded=rng.random() < 0.7, gain=rng.random() < 0.7)
+    top = rcontract(rng, t_in, t_out, style, bounded=True, gain=rng.random() < 0.6)
+    if fam == "top_assumes_more":
+        top["a"] = [dict(t) for t in divisor["a"] if set(t["c"]) <= set(t_in)] + top["a"]
+    elif fam == "top_assumes_less":
+        top["a"] = top["a"][: rng.randint(0, 1)]
+    allowed = [v for v in d_out + t_in]
+    addl: List[str] = []
+    r = rng.random()
+    if r < 0.3 and allowed:
+        addl = rng.sample(allowed, rng.randint(1, min(2, len(allowed))))
+    elif r < 0.35:
+        addl = ["zz"]
+    return {"family": fam, "shape": shape, "style": style, "top": top, "divisor": divisor, "partner": partner,
+            "additional_inputs": addl, "simplify": rng.random() < 0.6, "order": rorder(rng)}
